@@ -8,8 +8,10 @@ import (
 	"go/types"
 	"strings"
 
+	"gverif/cfgx"
 	"gverif/core"
 
+	"golang.org/x/tools/go/cfg"
 	"golang.org/x/tools/go/packages"
 )
 
@@ -163,6 +165,81 @@ func condUnit(pkg *packages.Package, res *core.Result) {
 				}
 				return true
 			})
+		}
+	}
+}
+
+// condAfter implements FACT.condafter: the LAPACK condition estimators work
+// on the *factors* (Gecon on LU, Pocon/Pbcon on the Cholesky factor, Trcon on
+// the R or L of a QR/LQ factorization). In a function that both factorizes
+// storage in place and estimates the condition number — directly or through
+// the receiver's updateCond — every path to the estimate passes the
+// factorization first. (FACT.normorder is the mirror image for the norm of
+// the original matrix, which must be taken before.)
+func condAfter(pkg *packages.Package, res *core.Result) {
+	info := pkg.TypesInfo
+	inPlace := map[string]bool{"Getrf": true, "Potrf": true, "Pbtrf": true, "Pstrf": true, "Geqrf": true, "Gelqf": true, "Gttrf": true, "Pttrf": true}
+	for _, f := range pkg.Syntax {
+		for _, d := range f.Decls {
+			fd, ok := d.(*ast.FuncDecl)
+			if !ok || fd.Body == nil {
+				continue
+			}
+			name := core.FuncName(pkg, fd)
+			var facts, ests []*ast.CallExpr
+			ast.Inspect(fd.Body, func(n ast.Node) bool {
+				call, ok := n.(*ast.CallExpr)
+				if !ok {
+					return true
+				}
+				if nm := lapack64Callee(info, call); nm != "" {
+					isQuery := false
+					for _, a := range call.Args {
+						if tv, ok := info.Types[a]; ok && tv.Value != nil && tv.Value.ExactString() == "-1" {
+							isQuery = true
+						}
+					}
+					switch {
+					case inPlace[nm] && !isQuery:
+						facts = append(facts, call)
+					case strings.HasSuffix(nm, "con") && len(nm) == 5:
+						ests = append(ests, call)
+					}
+				}
+				if sel, ok := call.Fun.(*ast.SelectorExpr); ok && sel.Sel.Name == "updateCond" {
+					ests = append(ests, call)
+				}
+				return true
+			})
+			if len(facts) == 0 || len(ests) == 0 {
+				continue
+			}
+			g := cfgx.New(fd.Body, info)
+			factBlock := map[int32]int{} // block -> smallest node index of a factorization
+			for _, fc := range facts {
+				if loc, ok := g.Where[fc]; ok {
+					if cur, seen := factBlock[loc.Block]; !seen || loc.Index < cur {
+						factBlock[loc.Block] = loc.Index
+					}
+				}
+			}
+			passed := g.MustPass(func(b *cfg.Block) bool { _, ok := factBlock[b.Index]; return ok })
+			for _, e := range ests {
+				loc, ok := g.Where[e]
+				if !ok {
+					continue
+				}
+				res.Obligations++
+				res.Count("estimates_in_factorizing_functions", 1)
+				okHere := passed[loc.Block]
+				if idx, same := factBlock[loc.Block]; same && idx < loc.Index {
+					okHere = true
+				}
+				if !okHere {
+					res.Add(core.Finding{Rule: "FACT.condafter", Key: fmt.Sprintf("FACT.condafter|%s|%s", name, types.ExprString(e.Fun)), Pos: core.Pos(e.Pos()), Func: name,
+						Msg: fmt.Sprintf("%s is reached on a path that has not yet factorized the storage in place: the estimator works on the factors, so the condition number it stores describes the unfactorized matrix", types.ExprString(e.Fun))})
+				}
+			}
 		}
 	}
 }
